@@ -36,6 +36,9 @@ CHECKS = {
  "C16": ("fault_enumeration", "exhaustive enumeration of the layer lattice (key in every subset of layers x spelling x discard), cross-reference placements and every present/absent x required/optional state vector of the env files, against a layering reference",
          "A key is placed in every subset of {project environment, env_file 1..3} combined with every form of `environment` entry (none, value, empty, valueless) in list and mapping spelling, with discard on and off (256 loads); a value ${B} in env file 2 with B defined in exactly one of project environment / earlier file / earlier line / later file / nowhere; all 27 {present, absent-required, absent-optional} vectors of three env files (error must name a missing required file, optional ones are ignored); the same lattice for label_file 1..2 x labels. Each case runs the real loader and is compared with the precedence the statement gives.",
          "Trusted: the reference precedence coded in props/c16.go. Outcomes the statement leaves open are not asserted.", "§4 C16", "E3 E4 E5"),
+ "C17": ("exploration", "exhaustive enumeration of the configuration lattice (name sources x environment layers x option orders) through the real cli/loader entry points against a precedence reference",
+         "The full product of explicit name (unset / valid / 2 invalid) x COMPOSE_PROJECT_NAME source (absent, WithEnv, OS, .env; valid or invalid) x `name:` placement over two files and a second document x name text (literal, ${VAR} set/unset, mixed case, normalising to empty) x directory base name (5 shapes) is loaded through cli.NewProjectOptions + LoadProject (2,800 loads); a variable is defined in every non-empty subset of {WithEnv, OS, .env #1, .env #2} under all 8 documented option orders, observed directly and through a ${V} reference written in .env #2. Oracle: the precedence chains of the statement, name shape, visibility as COMPOSE_PROJECT_NAME, rejection of invalid explicit/environment names.",
+         "Trusted: the reference chains in props/c17.go (Appendix A.4); cases the statement leaves open are not asserted.", "§4 C17, App. A.4", "E3 E4 E5"),
 }
 
 NOT_YET = {}
